@@ -53,8 +53,13 @@ EnvActs ==
           ELSE {})
     \cup (IF "send" \in Alpha THEN {[op |-> "send", s |-> s] : s \in Sid} ELSE {})
     \cup (IF "api" \in Alpha THEN {[op |-> "disconnect", s |-> s] : s \in Sid} ELSE {})
+    \cup (IF "apiall" \in Alpha THEN {[op |-> "disconnectall"]} ELSE {})
     \cup (IF "sess" \in Alpha THEN {[op |-> "save", s |-> s, tok |-> s] : s \in Sid}
-                                  \cup {[op |-> "get", s |-> s] : s \in Sid} ELSE {})
+                                  \cup {[op |-> "get", s |-> s] : s \in Sid}
+                                  \cup {[op |-> "transport", s |-> s] : s \in Sid}
+                                  \cup {[op |-> "sessctx", s |-> s, tok |-> s + 2] : s \in Sid}
+                                  \cup {[op |-> "apiunknown", call |-> c] : c \in ApiCalls}
+          ELSE {})
 
 Do(a) ==
     CASE a.op = "open"    -> OpenPolling(a.outcome, a.hsend)
@@ -67,6 +72,10 @@ Do(a) ==
       [] a.op = "wsdrop"  -> WsDrop(a.s)
       [] a.op = "send"    -> AppSend(a.s)
       [] a.op = "disconnect" -> AppDisconnect(a.s)
+      [] a.op = "disconnectall" -> AppDisconnectAll
+      [] a.op = "transport" -> AppTransport(a.s)
+      [] a.op = "sessctx" -> AppSessionCtx(a.s, a.tok)
+      [] a.op = "apiunknown" -> AppUnknown(a.call)
       [] a.op = "save"    -> AppSaveSession(a.s, a.tok)
       [] a.op = "get"     -> AppGetSession(a.s)
       [] a.op = "anyreq"  -> AnyReq(a.status)
